@@ -893,6 +893,12 @@ func (e *Exec) mapStore(c *Ctx, m Term, k, v Term, n ast.Node) {
 	card := e.cardFn(m.T)
 	e.vc.Fact(fmt.Sprintf("(= (%s %s) (+ (%s %s) (ite (select %s %s) 0 1)))", card, newDom, card, oldDom, oldDom, k.S))
 	e.vc.Fact(fmt.Sprintf("(>= (%s %s) 0)", card, oldDom))
+	if isNumeric(m.T.Elem) && !hasBound(k.S) && !hasBound(v.S) {
+		// sum of the values: new = old - (old value if present) + v
+		oldVal := e.vc.Define("vals", fmt.Sprintf("(Array %s %s)", e.Sort(m.T.Key), e.Sort(m.T.Elem)), fmt.Sprintf("(select %s %s)", va.S, m.S))
+		newVal := e.vc.Define("vals", fmt.Sprintf("(Array %s %s)", e.Sort(m.T.Key), e.Sort(m.T.Elem)), fmt.Sprintf("(store %s %s %s)", oldVal, k.S, v.S))
+		e.vc.Fact(fmt.Sprintf("(= %s (+ (- %s (ite (select %s %s) (select %s %s) %s)) %s))", e.msumTerm(newDom, newVal, m.T), e.msumTerm(oldDom, oldVal, m.T), oldDom, k.S, oldVal, k.S, e.Zero(m.T.Elem).S, v.S))
+	}
 	e.set(st, "MD!"+mapKeyName(e, m.T), Term{fmt.Sprintf("(store %s %s %s)", da.S, m.S, newDom), da.T})
 	e.set(st, "MV!"+mapKeyName(e, m.T), Term{fmt.Sprintf("(store %s %s (store (select %s %s) %s %s))", va.S, m.S, va.S, m.S, k.S, v.S), va.T})
 }
@@ -906,6 +912,11 @@ func (e *Exec) mapDelete(c *Ctx, m Term, k Term) {
 	card := e.cardFn(m.T)
 	e.vc.Fact(fmt.Sprintf("(= (%s %s) (- (%s %s) (ite (select %s %s) 1 0)))", card, newDom, card, oldDom, oldDom, k.S))
 	e.vc.Fact(fmt.Sprintf("(>= (%s %s) 0)", card, newDom))
+	if isNumeric(m.T.Elem) && !hasBound(k.S) {
+		va := e.mapValArr(st, m.T)
+		vals := e.vc.Define("vals", fmt.Sprintf("(Array %s %s)", e.Sort(m.T.Key), e.Sort(m.T.Elem)), fmt.Sprintf("(select %s %s)", va.S, m.S))
+		e.vc.Fact(fmt.Sprintf("(= %s (- %s (ite (select %s %s) (select %s %s) %s)))", e.msumTerm(newDom, vals, m.T), e.msumTerm(oldDom, vals, m.T), oldDom, k.S, vals, k.S, e.Zero(m.T.Elem).S))
+	}
 	// deleting from a nil map is a no-op in Go; with m == 0 the stored row is irrelevant
 	e.set(st, "MD!"+mapKeyName(e, m.T), Term{fmt.Sprintf("(store %s %s %s)", da.S, m.S, newDom), da.T})
 }
@@ -1470,3 +1481,19 @@ func (e *Exec) floorMul(a, b string) string {
 
 // hasBound: the term mentions a variable bound by an enclosing spec quantifier (named x!qN).
 func hasBound(s string) bool { return strings.Contains(s, "!q") }
+
+// msumTerm: the sum of the values of a (finite) map over a key set, an uninterpreted function of (set, values) whose
+// defining equations are instantiated where sets and values are updated (map stores/deletes, the seen set of a range loop).
+func (e *Exec) msumFn(t *Type) string {
+	ks, vs := e.Sort(t.Key), e.Sort(t.Elem)
+	n := "msum!" + mangle(ks) + "!" + mangle(vs)
+	e.vc.Decl("fun:"+n, fmt.Sprintf("(declare-fun %s ((Array %s Bool) (Array %s %s)) %s)\n(assert (forall ((v!m (Array %s %s))) (! (= (%s ((as const (Array %s Bool)) false) v!m) %s) :pattern ((%s ((as const (Array %s Bool)) false) v!m)))))",
+		n, ks, ks, vs, vs, ks, vs, n, ks, e.Zero(t.Elem).S, n, ks))
+	return n
+}
+
+func (e *Exec) msumTerm(set, vals string, t *Type) string {
+	return fmt.Sprintf("(%s %s %s)", e.msumFn(t), set, vals)
+}
+
+func isNumeric(t *Type) bool { return t.K == KInt || t.K == KReal }
